@@ -45,9 +45,13 @@ CsEnter == /\ Ev("CsEnter") /\ pend[R.t].op = "none"
            /\ UNCHANGED <<readers, writer, pend, intr>>
 CsExit == Ev("CsExit") /\ R.t \in incs /\ incs' = incs \ {R.t} /\ UNCHANGED <<readers, writer, pend, intr, shared>>
 Interrupt == Ev("Interrupt") /\ intr' = intr \cup {R.t} /\ UNCHANGED <<readers, writer, pend, incs, shared>>
+\* threads found asleep in lock(): legitimate only while somebody holds the lock
+Settle == /\ Ev("Settle")
+          /\ (Len(R.blocked) = 0 \/ readers # {} \/ writer # 0)
+          /\ UNCHANGED <<readers, writer, pend, intr, incs, shared>>
 Quiesce == /\ Ev("Quiesce") /\ \A t \in T : pend[t].op = "none"
            /\ readers = {} /\ writer = 0 /\ incs = {} /\ UNCHANGED <<readers, writer, pend, intr, incs, shared>>
-Next == \/ Reset \/ Inv \/ Resp \/ CsEnter \/ CsExit \/ Interrupt \/ Quiesce
+Next == \/ Reset \/ Inv \/ Resp \/ CsEnter \/ CsExit \/ Interrupt \/ Settle \/ Quiesce
         \/ \E t \in T : LinAdmit(t) \/ LinFail(t) \/ LinUnlock(t)
 Spec == Init /\ [][Next]_vars
 WriterExclusive == writer # 0 => (readers = {} /\ incs \subseteq {writer})
